@@ -30,12 +30,12 @@ type c08Case struct {
 }
 
 type c08Op struct {
-	encrLen  int
-	integIdx int // -1: none
-	nonce    []byte
-	name     string
+	encrLen   int
+	integIdx  int // -1: none
+	nonce     []byte
+	name      string
 	callerPrf bool // not a derivation: the caller computes a prf(SK_d, x) of its own on the exported Prf_d object (Reset, Write, Sum) and leaves it as it is
-	full     bool // the Child SA object carries everything a negotiated proposal carries (DH group, ESN): built through ToProposal / NewChildSAKeyByProposal when the proposal has an integrity transform, else filled in directly
+	full      bool // the Child SA object carries everything a negotiated proposal carries (DH group, ESN): built through ToProposal / NewChildSAKeyByProposal when the proposal has an integrity transform, else filled in directly
 }
 
 func c08Ops() []c08Op {
